@@ -41,6 +41,8 @@ impl XorShiftRng {
     }
 
     pub fn random_range(&mut self, lower: i64, upper: i64) -> i64 {
-        (self.random() * (upper - lower) as f64) as i64 + lower
+        // in i128 neither the span nor the sum can overflow for i64 operands
+        let span = upper as i128 - lower as i128;
+        ((self.random() * span as f64) as i128 + lower as i128).clamp(i64::MIN as i128, i64::MAX as i128) as i64
     }
 }
